@@ -729,7 +729,15 @@ func (c *pathBuilderVisitor) fieldIsChildNode(plannerIdx int) bool {
 	path := c.walker.Path.DotDelimitedString()
 	plannerPath := c.planners[plannerIdx].ParentPath()
 	fieldPath := strings.TrimPrefix(path, plannerPath)
-	return strings.ContainsAny(fieldPath, ".")
+	// Inline fragment segments between the planner's parent path and the field
+	// (an entity reached through an interface or union) do not make the field a
+	// child node: only a field segment does.
+	for _, segment := range strings.Split(fieldPath, ".") {
+		if segment != "" && !strings.HasPrefix(segment, ast.InlineFragmentPathPrefix) {
+			return true
+		}
+	}
+	return false
 }
 
 // recordFieldPlannedOn - records the planner id on which the field was planned
